@@ -36,8 +36,12 @@ def unhex : List Char → Option Str
 
 def parseAtom (t : String) : Option SX :=
   match t.toList with
-  | 's' :: r => (unhex r).map SX.str
-  | 'n' :: r => (String.ofList r).toNat?.map SX.nat
+  | 's' :: r => match unhex r with
+    | some b => some (SX.str b)
+    | none => some (SX.sym t)
+  | 'n' :: r => match (String.ofList r).toNat? with
+    | some n => some (SX.nat n)
+    | none => some (SX.sym t)
   | _ => some (SX.sym t)
 
 /-- parse a token list; returns the parsed expressions of the current level and the rest -/
